@@ -2,10 +2,10 @@
    The model's results are [Ok _ | Err | Panic]; an Err carries no new memory or state, so "rejected
    without side effects" is the statement "= Err"; every usize subtraction, slice, unwrap of the
    transcribed bodies is a partial primitive that yields Panic where Rust would panic.
-   PARTIAL: key/IV slice-length gates and the unequal-length gates
-   of the *_b2b helpers live in the interpreter (Interp.step) and are tied to the code by the
-   correspondence runs of gen/props/c13.py only. *)
-From BM Require Import BlockModes Plumbing Toy Ints Ctr Belt Stream Cts Cts_mem Stream_proofs Interp Wrapper_proofs Wrapper_inst Gates_proofs Cts_dec_proofs.
+   The key/IV slice-length gates and the unequal-length gates of the *_b2b helpers live in the
+   interpreter (Interp.step): C13_step_gates; and for EVERY operation of the interpreter an `err`
+   result leaves the whole store as it was: C13_err_no_effect. *)
+From BM Require Import BlockModes Plumbing Toy Ints Ctr Belt Stream Cts Cts_mem Stream_proofs Interp Wrapper_proofs Wrapper_inst Gates_proofs Cts_dec_proofs StepGates_proofs.
 From Coq Require Import ZArith.
 
 (* ciphertext stealing: shorter than one block is an error, for all six variants, both directions *)
@@ -62,3 +62,29 @@ Theorem C13_seek_pos_no_panic : forall t bits p bs blk byte, 0 < bs -> bs < 256 
   into_block_byte t bits p bs <> Panic /\ from_block_byte t blk byte bs <> Panic.
 Proof. intros. split; [now apply into_block_byte_no_panic | apply from_block_byte_no_panic]. Qed.
 Print Assumptions C13_seek_pos_no_panic.
+
+(* the interpreter the correspondence check runs: a refused operation changes no object at all *)
+Theorem C13_err_no_effect : forall bs w dm s rs o, snd (step bs w dm s rs o) = RErr -> fst (step bs w dm s rs o) = s.
+Proof. exact step_err_no_effect. Qed.
+Print Assumptions C13_err_no_effect.
+
+(* constructors from slices refuse wrong key / IV lengths; *_b2b helpers refuse unequal buffers *)
+Theorem C13_step_gates : forall bs w dm s rs id k key iv,
+  let ivlen := match k with KBlock bk => bm_ivlen (cph bs w dm (get_data rs key)) bk
+                          | KCts (EcbCs1 | EcbCs2 | EcbCs3) => 0 | _ => bs end in
+  (length (get_data rs key) <> 8 \/ length (get_data rs iv) <> ivlen ->
+     step bs w dm s rs (OpNew id k HSlices key iv) = (s, RErr)) /\
+  (length (get_data rs key) = 8 -> length (get_data rs iv) <> ivlen ->
+     step bs w dm s rs (OpNew id k HInnerSlice key iv) = (s, RErr)) /\
+  (forall bk bkey st d j, lookup s id = Some (OBlock bk bkey st) ->
+     length (get_data rs d) <> length (get_data rs j) ->
+     (length (get_data rs d) mod bm_mbs (cph bs w dm bkey) bk = 0 -> length (get_data rs j) mod bm_mbs (cph bs w dm bkey) bk = 0 ->
+        step bs w dm s rs (OpBlks id (PB2b d j)) = (s, RErr)) /\
+     (bm_is_async bk = true -> step bs w dm s rs (OpAsync id (PB2b d j)) = (s, RErr))).
+Proof.
+  intros bs w dm s rs id k key iv ivlen. split; [apply new_from_slices_gate|]. split; [apply inner_iv_slice_gate|].
+  intros bk bkey st d j Hl Hne. split.
+  - intros Hd Hj. now apply (blocks_b2b_gate bs w dm s rs id bk bkey st d j).
+  - intros Ha. now apply (async_b2b_gate bs w dm s rs id bk bkey st d j).
+Qed.
+Print Assumptions C13_step_gates.
